@@ -6,6 +6,7 @@ pub mod bignum;
 pub mod docgen;
 pub mod invariants;
 pub mod specvalid;
+pub mod seqhook;
 
 use serde_json::{json, Value};
 use std::collections::{BTreeMap, BTreeSet};
